@@ -28,7 +28,7 @@ def run(rep):
     er.rule_noast(rep)
     er.rule_stream(rep, "C14.stream")
     lr.rule_tags(rep, "C14.tagfault")
-    dr.rule_header(rep, "C14.langfault")
+    dr.rule_header(rep, "C14.langfault", snapshot=True)
     br.rule_rect(rep, "C14.ragged")
     lr.rule_scanner(rep, "C14.line", "C14.scan")
     lr.rule_token(rep, "C14.token")
